@@ -96,5 +96,27 @@ CLAIMS = {
           'it must be accepted and equal up to positions, comments and empty statements. Partial proof + translation validation.',
   'note': 'The printer (tools/orch/goprint.py) is an oracle-side tool; its choices (parentheses only for Paren nodes and the operand of &, trailing comma in type-parameter lists of type declarations) are listed in DESIGN.md.',
  },
+ 'C02': {
+  'category': 'proof',
+  'technique': 'Lean 4 lemmas on the terminator primitives and the expression loop + generated derivations of the Go grammar in random legal layouts, enumerated ambiguity shapes and long flat files against the real parser, model correspondence',
+  'text': 'Proved: skipped/expect behave as the omission rule needs (skipped_other, expect_other, ...), every well-grouped operator expression is consumed by the loop (C04), semicolons are inserted exactly per spec (C08). '
+          'Whole-language acceptance is decided by execution: derivations of SourceFile generated production by production (tools/orch/gogen.py, nesting < 16; production x context coverage matrix in the evidence), rendered canonically and in random legal layouts (blanks, CR LF, line breaks, explicit / newline / omitted terminators, optional trailing commas, comments), '
+          '1676 enumerated shapes of the type-parameter / array-length ambiguity, every corpus construct repeated 70 times in one file, and the hand-written corpus must all be accepted; rejections are classified by the model error site. Partial proof + translation validation. Seven rejections of valid Go found this way were repaired by fix: commits.',
+  'note': 'A newline after `package` is not generated (known finding K1, claimed under C08). The generator is an oracle-side tool: validity of its output is by construction from the spec, not proved.',
+ },
+ 'C03': {
+  'category': 'proof',
+  'technique': 'Lean 4 theorems on the tree-deciding pure helpers (extract, reset_chan_arrow) and the operator loop + comparison of the implementation tree with the generator derivation tree',
+  'text': 'Proved for all inputs: extract never reaches its panic, names the leftmost identifier, is monotone in force; reset_chan_arrow preserves the token sequence (`<-` associates with the leftmost chan); the expression loop builds the unique well-grouped tree with the spec precedence table. '
+          'The rest is decided by execution: every generated derivation (random and enumerated) is rendered and parsed, and the erased implementation tree must equal the derivation tree the generator built (after three documented vocabulary normalisations); first differing path reported per production x context cell. Partial proof + translation validation. One loss of structure found this way (embedded *T field) was repaired.',
+  'note': 'norm() identifies: TypePointer / unary Star / Star node; the parenthesis the parser drops under unary &; Index{List} vs IndexList.',
+ },
+ 'C13': {
+  'category': 'proof',
+  'technique': 'Lean 4 theorems that white space and newline-free comments never influence the token read or the semicolon decision + k independent random layouts of one token sequence against the real parser',
+  'text': 'Proved for every scanner state: the token scanner is started on the input with all leading white space removed (rest_after_skip, same_token_after_blanks), blanks and newline-free general comments do not change the semicolon decision and any other comment acts as a newline (C08 lineEnded_iff_spec). '
+          'The parser half (it only sees tokens) is decided by execution: each token sequence (generated programs and the token lists of all corpus programs) is rendered in 3 (quick) / 8 (thorough) independently randomised layouts - comments at any gap, line breaks wherever no semicolon is inserted, explicit/newline/omitted terminators, trailing commas - and all must give the same erased tree. Partial proof.',
+  'note': 'Comment handling inside the parser (comment tokens filtered in next(), re-scan after goback) is covered by correspondence, not by a theorem yet.',
+ },
 }
 NOT_CLAIMED = {}
